@@ -107,7 +107,7 @@ func genC04(t *rapid.T) C04Case {
 	pure := rapid.IntRange(0, 2).Draw(t, "pure") != 0
 	o := ragen.GenOpt{
 		Rx:       ragen.RxOpt{MaxDepth: 1, NoCasePairs: openFinding("D20")},
-		MaxDepth: 2, MaxItems: 5, Flags: true, Cmdline: true, CmdLiteral: true, StoreLoad: true,
+		MaxDepth: 2, MaxItems: 5, Flags: true, Cmdline: true, CmdLiteral: true, StoreLoad: true, NestInCmdline: true,
 		ConfigGen: func(t *rapid.T) (*string, ragen.Config) {
 			s, c, d, k := genConfig(t)
 			cfgKind, isDir = k, d
@@ -279,6 +279,11 @@ func cmdVariant(word string, pt ragen.CmdPatterns, sm *reqv.Sampler, fold, plain
 		case word[n-1] == '~':
 			stripped, suffix = word[:n-1], pt.NoSpaceSuffix
 		}
+		// `foo\@@`: the marker is taken off, what remains ends in an escaped marker character that stays
+		if len(stripped) == n-1 && (strings.HasSuffix(stripped, `\@`) || strings.HasSuffix(stripped, `\~`)) {
+			m := len(stripped)
+			stripped = stripped[:m-2] + stripped[m-1:]
+		}
 	}
 	var sb strings.Builder
 	ev := func() bool {
@@ -292,18 +297,18 @@ func cmdVariant(word string, pt ragen.CmdPatterns, sm *reqv.Sampler, fold, plain
 		sb.WriteString(s)
 		return true
 	}
-	for i := 0; i < len(stripped); i++ {
+	// between any two adjacent characters (not bytes) of the word
+	for i, ch := range stripped {
 		if i > 0 && !ev() {
 			return "", false
 		}
-		ch := stripped[i]
 		switch {
 		case ch == ' ':
 			sb.WriteString([]string{" ", "  ", "\t", " \t "}[sm.Intn(4)])
 		case fold && ch >= 'a' && ch <= 'z' && sm.Intn(3) == 0:
-			sb.WriteByte(ch - 32)
+			sb.WriteRune(ch - 32)
 		default:
-			sb.WriteByte(ch)
+			sb.WriteRune(ch)
 		}
 	}
 	if suffix != "" {
